@@ -152,7 +152,7 @@ theorem available_true_justified (cfg : Cfg) (rm : Remotes) (s : Sys) (mem : OSe
       (∀ v ∈ Pko.Props.C03.visitsPh cfg mem.owner (lookupPrev s mem) (rm.recon mem) mem.phases s.w,
         Pko.Props.C03.Clean cfg mem.owner (lookupPrev s mem) (rm.recon mem) v.1 v.2)) ∧
     final.controllerOf = co ∧
-    ∃ r, (activePhases cfg rm s mem).1.setEvents =
+    ∃ r, (activePhasesCore cfg rm s mem).1.setEvents =
       s.setEvents ++ [.statusUpdate final.name r final.revision final.conds final.controllerOf final.remotePhases] := by
   intro w' final
   have hav : condTrue final.conds "Available" = failing.isNone := by
@@ -168,7 +168,7 @@ theorem available_true_justified (cfg : Cfg) (rm : Remotes) (s : Sys) (mem : OSe
       (by rw [hph])
     exact ⟨rfl, this.1, this.2⟩
   · simp only [final]; rw [(Pko.Lemmas.ObjectSet.finishMem_fields _ _).1]; rfl
-  · simp only [activePhases, hnd, Bool.false_eq_true, ↓reduceIte, hph, finish,
+  · simp only [activePhasesCore, hnd, Bool.false_eq_true, ↓reduceIte, hph, finish,
       Pko.Lemmas.ObjectSet.afterStatus_fst]
     exact Pko.Lemmas.ObjectSet.updateStatus_setEvents _ _
 
